@@ -191,9 +191,10 @@ def run_random(chk, h, tier, broken, model_ok):
     if tier == "thorough":
         lens += [2, 3, 100, 511, 513, 768, 1000, 65536, 65537, 2 ** 20 + 1, 3 * 2 ** 20]
     drv = vlib.DriverProc(PATHSDRIVER)
-    # the list-based model needs ~90 s for 2^20 bytes: in the quick tier lengths above 64 KiB are checked on the
-    # real code against the property only (the theorem random_get_total covers every length)
-    cap = 65536 if tier == "quick" else 1 << 62
+    # the list-based model needs ~90 s for 2^20 bytes (quadratic in the length): lengths above 64 KiB (quick) /
+    # above 1 MiB (thorough) are checked on the real code against the property only (the theorem
+    # random_get_total covers every length)
+    cap = 65536 if tier == "quick" else 1 << 20
     model = None
     if model_ok:
         mo = drv.batch([f"random {n}" for n in lens if n <= cap], timeout=3000)
